@@ -10,7 +10,8 @@ for p in props:
     sp = os.path.join(V, "harness", pid, "spec.json")
     claim = None
     if os.path.exists(sp):
-        claim = json.load(open(sp)).get("claim")
+        spj = json.load(open(sp))
+        claim = spj.get("claim") if spj.get("ready") else None
     if claim:
         served.append(pid)
         c = {"property_id": pid,
